@@ -9,6 +9,7 @@ func propC04(c *Ctx) propInfo {
 	c.floor("E3b.layout=spec", 40)
 	c.intFamily(true, false, false)
 	c.codecEngine()
+	c.magicRadix()
 	c.cursorFreeEncoders("E10.cursor-free-encode", excCursorFree, "tlb", "wallet", "abi")
 	c.externalEnvelope()
 	c.copyLiterals("E12.copy-literal", map[string]string{}, "tlb", "wallet", "ton", "abi", "liteapi")
